@@ -298,4 +298,4 @@ def _obligations():
 
 
 def obligations():
-    return _obligations() + [labels_obligation("C12"), selectors_obligation("C12"), effects_obligation("C12")]
+    return _obligations() + [labels_obligation("C12"), selectors_obligation("C12"), effects_obligation("C12"), plumbing_obligation("C12")]
